@@ -29,7 +29,9 @@ TPuncture ==
   /\ IsEv("Puncture")
   /\ LET r == Recs[l] IN
        /\ r.i \in 1..Len(srv)
-       /\ (r.ok = 1) = PunctureRes(srv[r.i], r.t).ok
+       \* C14 is about answers: puncturing a tag that answers must succeed; the result for an
+       \* unregistered or already punctured tag is not pinned (the reference refuses the latter)
+       /\ Answers(srv[r.i], r.t) => r.ok = 1
        /\ srv' = PunctureSt(srv, r.i, r.t)
   /\ steps' = steps + 1 /\ UNCHANGED <<vals, pks>>
 
